@@ -69,7 +69,8 @@ def gen_average(g, gn, nmax=3, itmax=2):
     pts = [X] + [corr.gen_near(g, gd, X) if g.r.random() < 0.5 else small_elem(g, gd, True) for _ in range(max(0, n - 1))]
     pts = pts[:n]
     if n >= 2 and g.r.random() < 0.2: pts = [X] * n          # identical points
-    kind = g.r.randint(0, 3); it = g.r.randint(0, itmax)
+    kind = g.r.randint(0, 3); it = g.r.randint(0, itmax if gd.rep < 7 else 1)
+    if gd.rep >= 10 and n > 2: pts = pts[:2]; n = 2
     g.note("average_kind:%d" % kind); g.note("average_n:%d" % n)
     e = g.r.choice([EPS_D, Fr(1, 10 ** 6), Fr(1, 100)])
     return dict(group=gn, op="Average", mask="-", iarg=100 * kind + it, flt=0, args=[[e]] + pts)
